@@ -26,6 +26,9 @@ static inline void tsg_fill_##T(T *a, size_t n, T v){ for(size_t k_ = 0; k_ < n;
 static inline void tsg_copy_n_##T(const T *src, size_t n, T *dst){ for(size_t k_ = 0; k_ < n; k_++) dst[k_] = src[k_]; } \
 static inline void tsg_sized_##T(T *a, size_t *a_size, size_t cap, size_t n, T v){ __CPROVER_assert(n <= cap, "shim: local vector capacity suffices"); *a_size = n; tsg_fill_##T(a, n, v); } \
 static inline void tsg_resize_##T(T *a, size_t *a_size, size_t cap, size_t n){ __CPROVER_assert(n <= cap, "shim: local vector capacity suffices"); for(size_t k_ = *a_size; k_ < n; k_++) a[k_] = (T)0; *a_size = n; } \
+static inline void tsg_assign_##T(T *a, size_t *a_size, size_t cap, const T *b, size_t n){ __CPROVER_assert(n <= cap, "shim: local vector capacity suffices"); for(size_t k_ = 0; k_ < n; k_++) a[k_] = b[k_]; *a_size = n; } \
+static inline void tsg_swap_vec_##T(T *a, size_t *a_size, size_t a_cap, T *b, size_t *b_size, size_t b_cap){ __CPROVER_assert(*a_size <= b_cap && *b_size <= a_cap, "shim: local vector capacity suffices"); \
+   size_t n_ = (*a_size > *b_size) ? *a_size : *b_size; for(size_t k_ = 0; k_ < n_; k_++){ T t_ = a[k_]; a[k_] = b[k_]; b[k_] = t_; } size_t s_ = *a_size; *a_size = *b_size; *b_size = s_; } \
 static inline void tsg_append_##T(T *a, size_t *a_size, size_t cap, const T *b, size_t n){ __CPROVER_assert(*a_size + n <= cap, "shim: local vector capacity suffices"); for(size_t k_ = 0; k_ < n; k_++) a[*a_size + k_] = b[k_]; *a_size += n; }
 #ifndef TSG_CBMC
 #include <assert.h>
@@ -34,5 +37,6 @@ static inline void tsg_append_##T(T *a, size_t *a_size, size_t cap, const T *b, 
 TSG_DEF_VEC_OPS(double)
 TSG_DEF_VEC_OPS(int)
 TSG_DEF_VEC_OPS(bool)
+#define TSG_SWAP(T, a, b) do{ T t_ = (a); (a) = (b); (b) = t_; }while(0)
 #define TSG_RESERVE(a, n) __CPROVER_assert((n) <= a##_cap, "shim: local vector capacity suffices")
 #endif
